@@ -151,8 +151,19 @@ fn define_twice() -> String {
 
 pub fn main() {
     if std::env::args().nth(1).as_deref() == Some("define_twice") {
-        std::panic::set_hook(Box::new(|_| {}));
-        println!("{}", define_twice());
+        // the refusal is reported AT THE DEFINITION SITE (`#[track_caller]`): the panic message must name the caller's `define`
+        // line in this file, not a line inside the crate
+        static SITES: std::sync::Mutex<Vec<String>> = std::sync::Mutex::new(Vec::new());
+        std::panic::set_hook(Box::new(|info| {
+            let msg = info.payload().downcast_ref::<String>().cloned()
+                .or_else(|| info.payload().downcast_ref::<&str>().map(|m| m.to_string())).unwrap_or_default();
+            SITES.lock().unwrap().push(msg);
+        }));
+        let r = define_twice();
+        let sites = SITES.lock().unwrap().clone();
+        // … the message names the caller's `define` line in this file
+        let at_caller = sites.len() == 2 && sites.iter().all(|m| m.contains("deep.rs:"));
+        println!("{}{}", r, if at_caller { "".to_string() } else { format!(" refusal-does-not-name-the-define-call-site:{sites:?}") });
         return;
     }
     let args: Vec<String> = std::env::args().collect();
